@@ -81,9 +81,34 @@ def run_history(hist):
     classes = shipped_classes(yaml)
     data_types = {}
     def fn(name):
-        def f(*a, **k): return None
+        def f(*a, **k):
+            if a and hasattr(a[0], 'represent_scalar'): return a[0].represent_scalar('!p', name)       # registered as a representer
+            return name                                                                                 # registered as a constructor
         f._verif_name = name
         return f
+    def use_all():
+        """*use* every loader and dumper class of the world (shipped, C, user-defined): registrations must be the only thing that
+        changes a table - loading and dumping with a customised class must leave every class's tables alone.  Errors are expected
+        (stub constructors, unrepresentable objects) and ignored; only the tables observed afterwards matter."""
+        objs = [1, 's', 2.5, None, True, [1, 'a'], {'k': 1}, (1, 2), {3}, b'b']
+        for t in list(data_types.values()):
+            for T in (t, type('Sub' + t.__name__, (t,), {})):
+                try: objs.append(T())
+                except Exception: pass
+        docs = ['a: 1\nb: [x, xx, yes, 1.5, ~]\n', '- x\n- {k: x}\n', '!a v\n', '- !b [1]\n- !c {k: v}\n', '!p/suffix [1, 2]\n', '!!python/tuple [1, 2]\n', '!!int 3\n', '!y1 {a: 1}\n', '!unknown x\n', '{k: [x, {x: x}]}\n']
+        for name, c in list(classes.items()):
+            try:
+                if hasattr(c, 'construct_document') and hasattr(c, 'get_single_node') and hasattr(c, 'check_token') or (name.startswith('C') and name.endswith('Loader')):
+                    for d in docs:
+                        try: yaml.load(d, Loader=c)
+                        except Exception: pass
+                elif hasattr(c, 'represent') and hasattr(c, 'serialize') and hasattr(c, 'emit'):
+                    for o in objs:
+                        try: yaml.dump(o, Dumper=c)
+                        except Exception: pass
+                    try: yaml.dump(objs, Dumper=c)
+                    except Exception: pass
+            except Exception: pass
     def dtype(n):
         if n in ('str', 'int', 'list', 'dict'): return {'str': str, 'int': int, 'list': list, 'dict': dict}[n]
         if n not in data_types: data_types[n] = type(n, (), {})
@@ -121,6 +146,8 @@ def run_history(hist):
             elif kind == 'KImplicit': yaml.add_implicit_resolver(val, _re.compile('^x$'), key, **kw)
             elif kind == 'KPath':
                 p, k = path_args(key); yaml.add_path_resolver(val, p, k, **kw)
+        elif op[0] == 'use':
+            use_all()
         elif op[0] == 'yobj':
             _, name, tag, loaders, dumper = op
             body = {'yaml_tag': tag}
@@ -190,6 +217,7 @@ def ops_to_coq(hist, mros):
     """history -> Coq `list op` term (helpers / YAMLObject expand through the regenerated fan-out lists)."""
     out = []
     for i, op in enumerate(hist):
+        if op[0] == 'use': continue                      # using a class changes no table: the identity in the model
         if op[0] == 'def':
             _, name, bases, fresh = op
             out.append('[DefClass %s %s %s]' % (cstr(name), clist(cstr(x) for x in mros[name]), clist(fresh)))
@@ -322,6 +350,8 @@ def gen_history(rng, length, have_c=True):
             lo = rng.choice([None, None, rng.choice(loaders + user_loaders), [rng.choice(loaders + user_loaders), rng.choice(loaders)]])
             du = rng.choice([None, None, rng.choice(dumpers + user_dumpers)])
             hist.append(['yobj', name, rng.choice(['!y%d' % n_user, '!a', None]), lo, du])
+        if rng.random() < 0.25: hist.append(['use'])     # load / dump with every class between two registrations
+    if rng.random() < 0.5: hist.append(['use'])
     return hist
 
 def gen_key(rng, k, tags, prefixes, dtypes):
